@@ -87,4 +87,57 @@ theorem reader_lines_strip (ls : List (Bytes × Bool)) (final : Bool)
         simpa [List.getLast?_cons_cons] using hx))]
       rfl
 
+/-! ### NewReader: header lines -/
+
+theorem takeLine_append (l rest : Bytes) (h : ∀ c ∈ l, c ≠ 10) : takeLine (l ++ 10 :: rest) = some (l, rest) := by
+  induction l with
+  | nil => simp [takeLine]
+  | cons c l ih =>
+    have hc : c ≠ 10 := h c List.mem_cons_self
+    simp only [List.cons_append, takeLine, hc, if_false, ih (fun d hd => h d (List.mem_cons_of_mem _ hd))]
+    rfl
+
+/-- the text of header lines: each starts with `@`, contains no newline, and is newline-terminated -/
+def headerText (hls : List Bytes) : Bytes := hls.flatMap (· ++ [10])
+
+/-- NewReader's split: the header lines go to the header parser, the rest is the record lines -/
+theorem splitHeader_spec (hls : List Bytes) (body : Bytes)
+    (hl : ∀ l ∈ hls, (∃ rest, l = 64 :: rest) ∧ ∀ c ∈ l, c ≠ 10)
+    (hb : ∀ c rest, body = c :: rest → c ≠ 64) : ∀ (fuel : Nat) (acc : Bytes), hls.length < fuel →
+    (hls = [] → body = [] → acc ≠ []) →
+    splitHeader fuel acc (headerText hls ++ body) = some (acc ++ headerText hls, body) := by
+  induction hls with
+  | nil =>
+    intro fuel acc hf hacc
+    cases fuel with
+    | zero => omega
+    | succ fuel =>
+      simp only [headerText, List.flatMap_nil, List.nil_append, List.append_nil, splitHeader]
+      cases body with
+      | nil =>
+        have := hacc rfl rfl
+        cases acc with
+        | nil => exact absurd rfl this
+        | cons a as => simp
+      | cons c rest =>
+        have := hb c rest rfl
+        simp [this]
+  | cons l ls ih =>
+    intro fuel acc hf _
+    cases fuel with
+    | zero => omega
+    | succ fuel =>
+      obtain ⟨⟨lr, hlr⟩, h10⟩ := hl l List.mem_cons_self
+      have htxt : headerText (l :: ls) ++ body = l ++ 10 :: (headerText ls ++ body) := by
+        simp [headerText]
+      have hhead : l ++ 10 :: (headerText ls ++ body) = 64 :: (lr ++ 10 :: (headerText ls ++ body)) := by
+        rw [hlr]; rfl
+      have ht : takeLine (64 :: (lr ++ 10 :: (headerText ls ++ body))) = some (l, headerText ls ++ body) := by
+        rw [← hhead]; exact takeLine_append l _ h10
+      rw [htxt, hhead, splitHeader]
+      simp only [ne_eq, not_true_eq_false, if_false, ht]
+      rw [ih (fun x hx => hl x (List.mem_cons_of_mem _ hx)) fuel (acc ++ l ++ [10]) (by simp at hf; omega)
+        (fun _ _ => by simp)]
+      simp [headerText]
+
 end Hts.Model.SamText
